@@ -263,6 +263,31 @@ func rC15TaskImmutable(w *World, r *Report) {
 	}
 }
 
+// isFreshNode: v is a node allocated in this function, or the result of a library function that returns a node it has
+// just allocated on every path.
+func isFreshNode(v ssa.Value) bool {
+	switch x := v.(type) {
+	case *ssa.Alloc:
+		return true
+	case *ssa.Call:
+		cal := x.Call.StaticCallee()
+		if cal == nil || cal.Blocks == nil {
+			return false
+		}
+		all, n := true, 0
+		eachInstr(cal, func(in ssa.Instruction) {
+			if ret, ok := in.(*ssa.Return); ok && len(ret.Results) >= 1 {
+				n++
+				if _, fresh := ret.Results[0].(*ssa.Alloc); !fresh {
+					all = false
+				}
+			}
+		})
+		return all && n > 0
+	}
+	return false
+}
+
 // R10.9
 func rC10CommandFnWriters(w *World, r *Report) {
 	ru := r.Rule("R10.9", "the function a command runs is the one registered for that command: programTree.CommandFn is stored only by SetCommandFn, from its parameter, on the receiver's own node (no command starts out with another command's function)", 1)
@@ -282,6 +307,22 @@ func rC10CommandFnWriters(w *World, r *Report) {
 		if good {
 			b, ok := loadOfFieldNamed(u.Addr.X, "programTree")
 			good = ok && b == ssa.Value(u.Fn.Params[0])
+		}
+		if !good && st != nil {
+			// the built-in help command: HelpCommand gives the node it has just created the library's own help function
+			top := u.Fn
+			for top.Parent() != nil {
+				top = top.Parent()
+			}
+			val := st.Val
+			if ct, ok := val.(*ssa.ChangeType); ok {
+				val = ct.X
+			}
+			if fv, ok := val.(*ssa.Function); ok && short(fv) == "getoptions.runHelp" && short(top) == "(*getoptions.GetOpt).HelpCommand" {
+				if isFreshNode(u.Addr.X) {
+					good = true
+				}
+			}
 		}
 		ru.Check(good, "CommandFn/writer/"+short(u.Fn), w.IPos(u.Instr), "SetCommandFn stores its parameter on the receiver's node", "a command's function is set outside SetCommandFn (a command without its own function would silently run another one)")
 	}
